@@ -131,7 +131,7 @@ func init() {
 
 func (p *c11) ID() string { return "C11" }
 func (p *c11) Rule() string {
-	return "soup: seeded random bytes, token soup over an HTML/mustache/directive dictionary and byte/token mutations of the repository's .vuego corpus, as template body and as front-matter, through 7 entry points; types: every typed value of a 45-value catalogue (all numeric kinds, nil, typed nils, chan, func, maps with non-string keys, structs with unexported/embedded fields, cyclic pointer struct, deep nesting) x every directive position (v-for collection, v-if/else-if, v-show, :style with/without static style, :class, object syntax, v-html, v-text, bound/interpolated attrs, path steps, every built-in filter and argument position, operators, include props, slot props, template vars) - exhaustive; graph: every include graph over 3 files (each includes any subset of the others and itself) x 4 include forms (direct, in v-for, in v-if, as slot content) - exhaustive, plus layout cycles/chains; struct: struct/pointer root data with unexported, embedded and cyclic fields; non-trivial = every case that reached the engine; distinct by case content"
+	return "soup: seeded random bytes, token soup over an HTML/mustache/directive dictionary and byte/token mutations of the repository's .vuego corpus, as template body and as front-matter, through 7 entry points; types: every typed value of a 45-value catalogue (all numeric kinds, nil, typed nils, chan, func, maps with non-string keys, structs with unexported/embedded fields, cyclic pointer struct, deep nesting) x every directive position (v-for collection, v-if/else-if, v-show, :style with/without static style, :class, object syntax, v-html, v-text, bound/interpolated attrs, path steps, every built-in filter and argument position, operators, include props, slot props, template vars) - exhaustive; graph: every include graph over 3 files (each includes any subset of the others and itself) x 4 include forms (direct, in v-for, in v-if, as slot content) - exhaustive, plus layout cycles/chains; slotfwd: wrapper components forwarding named/default/scoped slots to inner components (also through two levels, inside v-for, and through a layout); struct: struct/pointer root data with unexported, embedded and cyclic fields; non-trivial = every case that reached the engine; distinct by case content"
 }
 
 var c11Vals = []TV{
@@ -224,7 +224,33 @@ var c11Tokens = []string{
 }
 
 func (p *c11) dims(ctx core.Ctx) (soup, types, graph, layout, strct int) {
-	return ctx.Pick(60000, 2000000), len(c11Vals) * len(c11Positions), 512 * 4, 24, 12
+	return ctx.Pick(60000, 2000000), len(c11Vals) * len(c11Positions), 512 * 4, 24, 12 + len(c11SlotForward)
+}
+
+// slot forwarding shapes: a wrapper component hands its own slots on to an
+// inner component (recursion through slots must be bounded too)
+var c11SlotForward = []map[string]string{
+	{"page.vuego": `<template include="panel.vuego"><template #header>Hello</template><p>body</p></template>`,
+		"panel.vuego": `<template include="card.vuego"><template #header><slot name="header">Panel</slot></template><slot></slot></template>`,
+		"card.vuego": `<div><header><slot name="header">H</slot></header><slot>B</slot></div>`},
+	{"page.vuego": `<template include="panel.vuego"></template>`,
+		"panel.vuego": `<template include="card.vuego"><template #header><slot name="header">Panel</slot></template><slot></slot></template>`,
+		"card.vuego": `<div><header><slot name="header">H</slot></header><slot>B</slot></div>`},
+	{"page.vuego": `<template include="panel.vuego"><template v-slot:header="p">{{ p.n }}</template></template>`,
+		"panel.vuego": `<section><template include="card.vuego"><template v-slot:header="q"><slot name="header" :n="q.n">Panel</slot></template></template></section>`,
+		"card.vuego": `<div><slot name="header" :n="1">H</slot></div>`},
+	{"page.vuego": `<template include="panel.vuego"><i>x</i></template>`,
+		"panel.vuego": `<template include="card.vuego"><template #header><slot>Panel</slot></template><template #default><slot name="header">D</slot></template></template>`,
+		"card.vuego": `<div><slot name="header">H</slot><slot>B</slot></div>`},
+	{"page.vuego": `<template include="a.vuego"><template #s>top</template></template>`,
+		"a.vuego": `<template include="b.vuego"><template #s><slot name="s">A</slot></template></template>`,
+		"b.vuego": `<template include="c.vuego"><template #s><slot name="s">B</slot></template></template>`,
+		"c.vuego": `<p><slot name="s">C</slot></p>`},
+	{"page.vuego": `<template include="panel.vuego"><template #header>Hello</template></template>`,
+		"panel.vuego": `<div v-for="k in two"><template include="card.vuego"><template #header><slot name="header">Panel</slot></template></template></div>`,
+		"card.vuego": `<div><slot name="header">H</slot></div>`},
+	{"page.vuego": "---\nlayout: lay\n---\n<template #side><slot name=\"side\">x</slot></template><p>b</p>",
+		"layouts/lay.vuego": `<aside><slot name="side">FB</slot></aside><main v-html="content"></main>`},
 }
 
 func (p *c11) Plan(ctx core.Ctx) int {
@@ -362,6 +388,9 @@ func (p *c11) Gen(ctx core.Ctx, i int) any {
 		return c11Case{Part: "layout", Files: files, Entry: "page.vuego", EP: []string{"file", "renderfile"}[i%2]}
 	}
 	i -= nlayout
+	if i >= 12 {
+		return c11Case{Part: "slotfwd", Files: c11SlotForward[(i-12)%len(c11SlotForward)], Entry: "page.vuego", EP: []string{"file", "vue", "renderfile", "fragment"}[(i-12)%4]}
+	}
 	roots := []string{"Item", "*Item", "Emb", "cyclic*Item", "nil*Item", "[]Item", "map[int]string", "string", "int", "chan", "func", "deep"}
 	return c11Case{Part: "struct", Root: roots[i%len(roots)], EP: c11EPs[i%len(c11EPs)],
 		Tpl: `<p>{{ title }}|{{ Title }}|{{ hidden }}|{{ Plain }}|{{ sub.title }}|{{ Sub.Sub.Sub.title }}|{{ extra }}|{{ Item.title }}</p><p v-if="title == 't'">eq</p><i v-for="t in tags">{{ t }}</i><b :title="count">{{ count + 1 }}</b>`}
